@@ -2,6 +2,9 @@
 # usage: seedmatrix.sh [seed-id ...]  — runs every property's quick check on every stored seeded variant
 # (scratch worktrees of /repo HEAD under /tmp, removed afterwards) and writes seeded/MATRIX.tsv:
 # seed <TAB> property <TAB> caught|silent|n/a <TAB> first reported obligation
+# MATRIX_PROPS=own runs only the property a seed was written against (its id prefix); with MATRIX_MERGE=1 the
+# rows produced replace the rows of the same (seed, property) in the existing table and all others are kept
+# (the full 19-column pass over ~400 seeds takes hours; the own-property pass minutes).
 set -u
 cd "$(dirname "$0")/.."
 seeds=${@:-$(ls seeded | grep -E '^C[0-9]+-' )}
@@ -11,7 +14,8 @@ one() {
   if grep -q '"status": "obsolete"' seeded/$s/meta.json 2>/dev/null; then for p in $props; do printf "%s\t%s\tobsolete\t\n" $s $p; done; return; fi
   git -C /repo worktree add -q --detach $WT HEAD 2>/dev/null || { echo "$s worktree failed" >&2; return; }
   if ! git -C $WT apply $(realpath seeded/$s/patch.diff) 2>/dev/null; then for p in $props; do printf "%s\t%s\tn/a\tpatch does not apply\n" $s $p; done; git -C /repo worktree remove --force $WT; return; fi
-  for p in $props; do
+  myprops=$props; [ "${MATRIX_PROPS:-}" = own ] && myprops=${s%%-*}
+  for p in $myprops; do
     out=$(VERIF_ROOT=$PWD OFV_EVIDENCE_DIR=/tmp/seedmx/ev-$s OFV_NO_SEED_AUDIT=1 ./bin/ofverify check $p --repo $WT 2>&1); rc=$?
     if [ $rc -eq 1 ]; then printf "%s\t%s\tcaught\t%s\n" $s $p "$(echo "$out" | grep -E "^(VIOLATION|UNDECIDED|UNMAPPED) $p/" | head -1 | cut -d' ' -f2)"
     elif [ $rc -eq 0 ]; then printf "%s\t%s\tsilent\t\n" $s $p; else printf "%s\t%s\terror\t%s\n" $s $p "$(echo "$out" | tail -1 | cut -c1-120)"; fi
@@ -19,6 +23,11 @@ one() {
   git -C /repo worktree remove --force $WT; rm -rf /tmp/seedmx/ev-$s
 }
 export -f one; export props
-echo $seeds | tr ' ' '\n' | xargs -P 7 -I{} bash -c 'one {}' > seeded/MATRIX.tsv.tmp
-sort seeded/MATRIX.tsv.tmp > seeded/MATRIX.tsv; rm seeded/MATRIX.tsv.tmp
+echo $seeds | tr ' ' '\n' | xargs -P ${MATRIX_JOBS:-7} -I{} bash -c 'one {}' > seeded/MATRIX.tsv.tmp
+if [ "${MATRIX_MERGE:-}" = 1 ] && [ -f seeded/MATRIX.tsv ]; then
+  awk -F'\t' 'NR==FNR{k[$1 FS $2]=1; print; next} !(($1 FS $2) in k)' seeded/MATRIX.tsv.tmp seeded/MATRIX.tsv | sort > seeded/MATRIX.tsv.new
+  mv seeded/MATRIX.tsv.new seeded/MATRIX.tsv; rm seeded/MATRIX.tsv.tmp
+else
+  sort seeded/MATRIX.tsv.tmp > seeded/MATRIX.tsv; rm seeded/MATRIX.tsv.tmp
+fi
 echo "wrote seeded/MATRIX.tsv ($(wc -l < seeded/MATRIX.tsv) rows)"
